@@ -9,7 +9,15 @@
 
 package gbn
 
-import "time"
+import (
+	"context"
+	"time"
+
+	"github.com/btcsuite/btclog/v2"
+)
+
+var _ context.Context
+var _ btclog.Logger
 
 var _ = time.Second
 
@@ -122,7 +130,8 @@ func wellformed(b []byte) bool {
 // qinv: representation invariant of the send queue.
 func qinv(q *queue) bool {
 	return q != nil && q.cfg != nil && q.cfg.log != nil && q.syncer != nil && syinv(q.syncer) &&
-		q.timeoutManager != nil && q.cfg.s >= 2 && q.syncer.s == q.cfg.s &&
+		tminv(q.timeoutManager) && q.syncer.timeoutManager == q.timeoutManager && q.cfg.s >= 2 && q.syncer.s == q.cfg.s &&
+		!isnil(q.cfg.sendPkt) &&
 		q.sequenceBase < q.cfg.s && q.sequenceTop < q.cfg.s &&
 		len(q.content) == int(q.cfg.s)
 }
@@ -244,6 +253,8 @@ func syinv(c *syncer) bool {
 //@   ensures implies(err == nil && b[0] == SYNACK, is[*PacketSYNACK](msg))
 
 //@ import "time"
+//@ import "context"
+//@ import "github.com/btcsuite/btclog/v2"
 
 //@ field GoBackNConn.recvDataChan nonnil
 //@ field GoBackNConn.sendDataChan nonnil
@@ -374,6 +385,102 @@ func boinv(b *TimeoutBooster) bool { return b != nil && past(b.lastBoost) }
 //@   props C20
 //@   requires m != nil
 //@   ensures r != 0
+
+// ---- connection (C01, C07, C09, C10) ---------------------------------------------
+
+//@ axiom log != nil
+
+// gcfg: the connection's configuration is usable.
+func gcfg(g *GoBackNConn) bool {
+	return g != nil && g.cfg != nil && g.log != nil && tminv(g.timeoutManager) &&
+		!isnil(g.cfg.sendToStream) && !isnil(g.cfg.recvFromStream) && !isnil(g.ctx)
+}
+
+// ginv: invariant of a connection whose window has been fixed: the sequence
+// space s = n+1 is strictly larger than the window n, the receive counter and
+// the send queue live inside it.
+func ginv(g *GoBackNConn) bool {
+	return gcfg(g) && g.cfg.n >= 1 && g.cfg.n <= 254 && g.cfg.s == g.cfg.n+1 && g.recvSeq < g.cfg.s &&
+		qinv(g.sendQueue) && g.sendQueue.cfg.s == g.cfg.s && g.sendQueue.timeoutManager == g.timeoutManager
+}
+
+// gstarted: the tickers created by start exist.
+func gstarted(g *GoBackNConn) bool {
+	return g.pingTicker != nil && g.pongTicker != nil && g.resendTicker != nil
+}
+
+//@ func newConfig(sendFunc sendBytesFunc, recvFunc recvBytesFunc, n uint8) (c *config)
+//@   props C09 C07
+//@   ensures fresh(c) && c.n == n && c.s == n+1 && c.maxChunkSize == 0
+//@   ensures implies(!isnil(sendFunc), !isnil(c.sendToStream)) && implies(!isnil(recvFunc), !isnil(c.recvFromStream))
+
+//@ func newSyncer(s uint8, prefixLogger btclog.Logger, timeoutManager *TimeoutManager, quit chan struct{}) (c *syncer)
+//@   props C07
+//@   requires timeoutManager != nil && s >= 2
+//@   ensures fresh(c) && syinv(c) && c.s == s && c.timeoutManager == timeoutManager && c.state == syncStateIdle && c.quit == quit
+
+//@ func newQueue(cfg *queueCfg, timeoutManager *TimeoutManager) (q *queue)
+//@   props C07 C09
+//@   requires cfg != nil && cfg.s >= 2 && !isnil(cfg.sendPkt) && tminv(timeoutManager)
+//@   modifies cfg.log
+//@   ensures fresh(q) && qinv(q) && q.cfg == cfg && q.sequenceBase == 0 && q.sequenceTop == 0 && q.timeoutManager == timeoutManager
+//@   ensures cfg.s == old(cfg.s) && !closed(q.quit) && q.syncer.quit == q.quit
+
+//@ func (g *GoBackNConn) setN(n uint8)
+//@   props C07 C09 C10
+//@   requires gcfg(g) && 1 <= n && n <= 254
+//@   modifies g.cfg.n, g.cfg.s, g.recvDataChan, g.sendQueue
+//@   ensures gcfg(g) && g.cfg.n == n && g.cfg.s == n+1 && qinv(g.sendQueue) && g.sendQueue.cfg.s == n+1
+//@   ensures g.sendQueue.sequenceBase == 0 && g.sendQueue.sequenceTop == 0 && g.sendQueue.timeoutManager == g.timeoutManager
+//@   ensures cap(g.recvDataChan) == int(n)
+//@   ensures fresh(g.sendQueue)
+
+//@ func (g *GoBackNConn) sendPacket(ctx context.Context, msg Message, isResend bool) (err error)
+//@   props C01 C07
+//@   requires gcfg(g) && isPacket(msg)
+//@   modifies g.timeoutManager.latestSentSYNTime, entries(g.timeoutManager.sentTimes), g.timeoutManager.handshakeBooster.boostCount,
+//@            g.timeoutManager.handshakeBooster.lastBoost, g.timeoutManager.resendBooster.boostCount, g.timeoutManager.resendBooster.lastBoost
+//@   ensures tminv(g.timeoutManager)
+
+//@ extern btclog.Logger.WithPrefix nonnil
+
+//@ func NewTimeOutManager(logger btclog.Logger, timeoutOpts ...TimeoutOptions) (m *TimeoutManager)
+//@   props C20 C07
+//@   trusted
+//@   ensures fresh(m) && tminv(m)
+
+//@ func newGoBackNConn(ctx context.Context, cfg *config, loggerPrefix string) (g *GoBackNConn)
+//@   props C07 C09
+//@   requires !isnil(ctx) && cfg != nil && cfg.n >= 1 && cfg.n <= 254 && cfg.s == cfg.n+1
+//@   requires !isnil(cfg.sendToStream) && !isnil(cfg.recvFromStream)
+//@   ensures fresh(g) && ginv(g) && g.cfg == cfg && g.recvSeq == 0 && cap(g.recvDataChan) == int(cfg.n)
+//@   ensures g.pingTicker == nil && g.pongTicker == nil && g.resendTicker == nil
+//@   ensures !closed(g.quit) && !closed(g.remoteClosed) && !closed(g.sendQueue.quit)
+
+//@ func (g *GoBackNConn) serverHandshake() (err error)
+//@   props C07 C10
+//@   requires ginv(g) && g.recvSeq == 0
+//@   noframe
+//@   loop 0 invariant ginv(g) && g.recvSeq == 0 && g.sendQueue == old(g.sendQueue) && implies(resent, 1 <= n && n <= 254)
+//@   loop 0 invariant wirelen() >= old(wirelen())
+//@   loop 0 invariant @C10 implies(resent, wirelen() >= old(wirelen())+2 && wirebyte(wirelen()-2) == SYN && wirebyte(wirelen()-1) == n)
+//@   label recvClientSYN invariant ginv(g) && g.recvSeq == 0 && g.sendQueue == old(g.sendQueue) && is[*PacketSYN](msg) && as[*PacketSYN](msg) != nil
+//@   label recvClientSYN invariant wirelen() >= old(wirelen())
+//@   ensures ginv(g)
+//@   ensures @C10 implies(g.sendQueue != old(g.sendQueue), wirelen() >= old(wirelen())+2 &&
+//@           wirebyte(wirelen()-2) == SYN && wirebyte(wirelen()-1) == g.cfg.n)
+//@   ensures @C10 implies(g.sendQueue == old(g.sendQueue), g.cfg.n == old(g.cfg.n))
+
+//@ func (g *GoBackNConn) clientHandshake() (err error)
+//@   props C07 C10
+//@   requires ginv(g)
+//@   noframe
+//@   loop 0 invariant ginv(g) && g.cfg.n == old(g.cfg.n) && wirelen() >= old(wirelen())
+//@   loop 1 invariant ginv(g) && g.cfg.n == old(g.cfg.n) && wirelen() >= old(wirelen())+2 &&
+//@          wirebyte(wirelen()-2) == SYN && wirebyte(wirelen()-1) == g.cfg.n
+//@   at "synack, err := new(PacketSYNACK).Serialize()" assert @C10 respSYN != nil && respSYN.N == g.cfg.n
+//@   ensures ginv(g) && g.cfg.n == old(g.cfg.n)
+//@   ensures @C10 implies(err == nil && !closed(g.quit) && wirelen() > old(wirelen()), wirebyte(wirelen()-1) == SYNACK || wirebyte(wirelen()-2) == SYN)
 
 // ---- chunking (C14) -------------------------------------------------------------
 
